@@ -341,6 +341,33 @@ def _method(qv, fn, S, truth, kind, opt, ctx, classes, rec):
     want = getattr(qv.utils, want_name)
     if type(R) is not want:
         raise Violation("result_type/%s" % fn, "got %s, documented %s; %s" % (type(R).__name__, want_name, detail))
+    # "labels replaced by their mapping integers": the mapping in force at the time of the call.  On a copy
+    # (the source itself must stay unchanged): export once, install another mapping with the documented
+    # set_mapping, export again - the second export has to follow the new mapping.
+    if kind in gen.LABELLED_KINDS and n >= 2:
+        S2 = lib(S.copy, what="copy")
+        lib(getattr(S2, fn), *args, what=fn + "(first export)")
+        old_mp = S2.mapping
+        new_mp = {l: n - 1 - i for l, i in old_mp.items()}
+        lib(S2.set_mapping, new_mp, what="set_mapping")
+        if S2.mapping != new_mp:
+            raise Violation("set_mapping_not_installed", "asked %r, mapping %r" % (new_mp, S2.mapping))
+        R2 = lib(getattr(S2, fn), *args, what=fn + "(after set_mapping)")
+        mapped2 = {}
+        for k, v in truth.items():
+            mk = tuple(new_mp[l] for l in k)
+            mapped2[mk] = mapped2.get(mk, 0) + v
+        for l in _labels_in(dict(R2)):
+            if isinstance(l, bool) or not isinstance(l, (int, np.integer)) or not 0 <= l < n:
+                raise Violation("enumerated_label_out_of_range/%s/after_set_mapping" % fn, "label %r; %r" % (l, dict(R2)))
+        ts2 = ref.table(mapped2, order, spin)
+        tr2 = ref.table(dict(R2), order, dst_spin)
+        bad = ctx.differ(ts2, tr2, _scale(truth, dict(R2)))
+        if bad is not None:
+            raise Violation("function_differs/%s/after_set_mapping" % fn,
+                            "export, set_mapping(%r), export again: at %r source %r, result %r; model=%r result=%r" %
+                            (new_mp, ref.assignment(order, bad, False), ts2[bad], tr2[bad], truth, dict(R2)))
+        classes.add("re_export_after_set_mapping")
     return True
 
 
